@@ -265,7 +265,7 @@ theorem get_digits_integer (base nd0 : ℕ) (u : F) (hb : 2 ≤ base) (N : ℕ) 
     intro h0
     have : u.d = [] := List.eq_nil_of_length_eq_zero h0
     rw [this] at hval; simp at hval; omega
-  unfold get_digits
+  unfold get_digits scaledInt
   simp only
   rw [if_neg hne, if_pos hexp]
   set nd := effDigits base u.prec nd0
